@@ -1170,3 +1170,58 @@ def swallowed_io(ctx: "Ctx", entry: "FuncInfo"
                 if not isinstance(last, ast.Raise):
                     bad.append((fi, h))
     return bad
+
+
+_SIZE_MUTATORS = {"add", "remove", "discard", "pop", "clear", "update",
+                  "difference_update", "intersection_update",
+                  "symmetric_difference_update", "popitem", "append",
+                  "insert", "extend", "setdefault"}
+
+
+def resized_while_iterated(ctx: "Ctx", fi: "FuncInfo"
+                           ) -> list[tuple[ast.For, ast.AST, str]]:
+    """``for x in E:`` loops of ``fi`` whose body changes the size of the
+    very collection ``E`` (same expression: a name or an attribute chain)
+    without leaving the loop right afterwards.  (A mutation through a callee
+    is not matched: the same attribute name on another receiver is the
+    normal case - `for s in a.in_event_sets: b.update_in_event_sets(..)`.)  Iterating a copy (``list(E)``,
+    ``E.copy()``, ``sorted(E)``) is not matched."""
+    out: list[tuple[ast.For, ast.AST, str]] = []
+    for l in ast.walk(fi.node):
+        if not isinstance(l, ast.For) or not isinstance(
+                l.iter, (ast.Name, ast.Attribute)):
+            continue
+        it = unparse(l.iter)
+        for st in l.body:
+            for c in ast.walk(st):
+                if isinstance(c, ast.Call) and isinstance(
+                        c.func, ast.Attribute) and c.func.attr in \
+                        _SIZE_MUTATORS and unparse(c.func.value) == it:
+                    if not _leaves_loop_after(l, c):
+                        out.append((l, c, f"{it}.{c.func.attr}(..)"))
+                elif isinstance(c, ast.Delete) and any(
+                        isinstance(t, ast.Subscript)
+                        and unparse(t.value) == it for t in c.targets):
+                    if not _leaves_loop_after(l, c):
+                        out.append((l, c, f"del {it}[..]"))
+    return out
+
+
+def _leaves_loop_after(loop: ast.For, node: ast.AST) -> bool:
+    """The statement containing ``node`` is followed, in its own block, by
+    ``break`` / ``return`` / ``raise`` as the next statement."""
+    for parent in ast.walk(loop):
+        for fld in ("body", "orelse", "finalbody"):
+            blk = getattr(parent, fld, None)
+            if not isinstance(blk, list):
+                continue
+            for i, st in enumerate(blk):
+                if isinstance(st, ast.stmt) and any(
+                        x is node for x in ast.walk(st)) and not any(
+                        isinstance(y, (ast.For, ast.While, ast.If, ast.Try,
+                                       ast.With)) and any(
+                            x is node for x in ast.walk(y)) and y is not st
+                        for y in ast.walk(st)):
+                    nxt = blk[i + 1] if i + 1 < len(blk) else None
+                    return isinstance(nxt, (ast.Break, ast.Return, ast.Raise))
+    return False
